@@ -103,26 +103,37 @@ def impl_line(c):
                                         " ".join("%x" % num.bits(c["ty"], x) for x in c["nums"]))
 
 
-def run_coq(terms):
+def run_coq(terms, chunk=1500):
+    """one coqc call per <chunk> terms (a single list literal of some 10^4 terms overflows coqc's stack), in parallel"""
+    from concurrent.futures import ThreadPoolExecutor
     d = os.path.join(core.SCRATCH, "c20cases")
     os.makedirs(d, exist_ok=True)
-    p = os.path.join(d, "cases_%d.v" % os.getpid())
-    with open(p, "w") as f:
-        f.write("From Coq Require Import List Bool.\nImport ListNotations.\nFrom SL Require Import Model.Eqv.\n"
-                "Definition T := true. Definition F := false.\n"
-                "Definition leq := @list_eqb bool Bool.eqb.\n"
-                "Definition seq_ := @simplex_eqb bool Bool.eqb.\nDefinition oeq := @opinion_eqb bool Bool.eqb.\n")
-        f.write("Definition answers : list bool :=\n  [ %s ].\nEval vm_compute in answers.\n" % ";\n    ".join(terms))
-    r = subprocess.run(["coqc", "-noglob", "-Q", COQ, "SL", p], stdout=subprocess.PIPE, stderr=subprocess.STDOUT,
-                       timeout=3000, cwd=d)
-    out = r.stdout.decode()
-    for ext in ("", "o", "ok", "os"):
-        if os.path.exists(p + ext):
-            os.unlink(p + ext)
-    if r.returncode != 0:
-        raise RuntimeError("coqc failed: " + out[-2000:])
-    body = out[out.index("="):]
-    return [t == "true" for t in re.findall(r"\b(true|false)\b", body)]
+
+    def one(k):
+        part = terms[k:k + chunk]
+        p = os.path.join(d, "cases_%d_%d.v" % (os.getpid(), k))
+        with open(p, "w") as f:
+            f.write("From Coq Require Import List Bool.\nImport ListNotations.\nFrom SL Require Import Model.Eqv.\n"
+                    "Definition T := true. Definition F := false.\n"
+                    "Definition leq := @list_eqb bool Bool.eqb.\n"
+                    "Definition seq_ := @simplex_eqb bool Bool.eqb.\nDefinition oeq := @opinion_eqb bool Bool.eqb.\n")
+            f.write("Definition answers : list bool :=\n  [ %s ].\nEval vm_compute in answers.\n" % ";\n    ".join(part))
+        r = subprocess.run(["coqc", "-noglob", "-Q", COQ, "SL", p], stdout=subprocess.PIPE, stderr=subprocess.STDOUT,
+                           timeout=3000, cwd=d)
+        out = r.stdout.decode()
+        for ext in ("", "o", "ok", "os"):
+            if os.path.exists(p + ext):
+                os.unlink(p + ext)
+        if r.returncode != 0:
+            raise RuntimeError("coqc failed: " + out[-2000:])
+        body = out[out.index("="):]
+        got = [t == "true" for t in re.findall(r"\b(true|false)\b", body)]
+        if len(got) != len(part):
+            raise RuntimeError("coqc returned %d answers for %d terms" % (len(got), len(part)))
+        return got
+    with ThreadPoolExecutor(max_workers=8) as ex:
+        parts = list(ex.map(one, range(0, len(terms), chunk)))
+    return [x for part in parts for x in part]
 
 
 def bl(s):
